@@ -46,6 +46,7 @@ static Snap snapshot(const TasmanianSparseGrid &g, const Cfg &cfg){
 }
 
 static std::vector<Op> alphabet_for(const std::string &prop, const Cfg &cfg, const std::string &tier);
+static void c04_pair_experiment(Mon &m, TasmanianSparseGrid &g, const Ref &r, long &nexp);
 #include "mon_c01.inc"
 #include "mon_c04.inc"
 #include "mon_c07.inc"
@@ -55,7 +56,7 @@ static std::vector<Op> alphabet_for(const std::string &prop, const Cfg &cfg, con
 #include "lattice.inc"
 
 // ---------------------------------------------------------------- state key
-static std::string refbits(const Ref &r){ std::ostringstream o; o << " ref:" << r.vals_valid << r.limits_trusted << r.model_kind << ":"; for(int v : r.limits) o << v << ",";
+static std::string refbits(const Ref &r){ std::ostringstream o; o << " ref:" << r.vals_valid << r.coeffs_stale << r.stale.size() << r.limits_trusted << r.model_kind << ":"; for(int v : r.limits) o << v << ",";
     if (g_prop == "C08"){ std::ostringstream q; for(auto &p : r.present) for(double v : p) q << vf::hexd(v) << ","; o << " present:" << vf::digest(q.str()); } return o.str(); }
 static std::string obskey(const TasmanianSparseGrid &g, const Ref &r){ return vf::digest(obs(g) + refbits(r)); }
 
@@ -79,6 +80,7 @@ static void run_experiments(Mon &m, TasmanianSparseGrid &g, const Ref &r, long &
     if (g_prop == "C06") c06_experiments(m, g, r, nexp);
     else if (g_prop == "C11") c11_experiments(m, g, r, nexp);
     else if (g_prop == "C14") c14_experiments(m, g, r, nexp);
+    else if (g_prop == "C04") c04_pair_experiment(m, g, r, nexp);
 }
 
 // replays a history on a fresh object; returns false if some op is not applicable (cannot happen for recorded histories)
@@ -86,6 +88,24 @@ static bool rebuild(const Cfg &cfg, const Hist &h, TasmanianSparseGrid &g, Ref &
     make(g, cfg); r = Ref(); r.limits = cfg.limits; if (g_prop == "C08") ref_observe(g, r);
     for(auto &op : h){ ApplyInfo info; if (!apply(g, op, r, &info)) return false; if (g_prop == "C08") c08_ref_after(cfg, g, op, r, info); }
     return true;
+}
+
+// C04 (and C01-like nodal) on user-chosen sample pairs: in the initial state of a 3-D local polynomial configuration, a depth-1 grid is put
+// under construction, its initial points are delivered, then EVERY pair of points of the depth-3 full grid is delivered as one batch
+// (holes in the hierarchy: a point whose direct parent is missing but a farther ancestor exists) and all routes are compared.
+static void c04_pair_experiment(Mon &m, TasmanianSparseGrid &g, const Ref &r, long &nexp){
+    const Cfg &cfg = *m.cfg; if (!(cfg.fam == F_LOCALP && cfg.dims == 3 && m.hist.empty() && cfg.outs > 0)) return;
+    Cfg c1 = cfg; c1.depth = 1; int fd = 3; TasmanianSparseGrid fine; fine.makeLocalPolynomialGrid(3, 0, fd, cfg.order, cfg.rule); int nf = fine.getNumPoints();
+    experiment(m, nexp, "C04:crash:pair-experiment", [&](std::ostream &out){
+        long ev = 0; int reported = 0;
+        for(int i=0;i<nf && reported < 3;i++) for(int j=i;j<nf && reported < 3;j++){
+            Hist h; h.push_back(Op("begin")); h.push_back(Op("deliver", 0, 0)); h.push_back(Op("deliverpair", i, j, fd));
+            TasmanianSparseGrid g2; Ref r2; if (!rebuild(c1, h, g2, r2)) continue;
+            Mon m2; m2.cfg = &c1; m2.hist = h; m2.unit = m.unit; c04_state(m2, g2, r2); ev += m2.evals; nexp++; if (m2.nviol) reported++;
+        }
+        out << "E " << ev << "\n";
+    }, 600.0);
+    (void) g; (void) r;
 }
 
 struct TransRes { Op op; std::string key; bool ok = false; std::string outcome; long evals = 0, nexp = 0; int nviol = 0; };
